@@ -205,9 +205,15 @@ impl Family for Driver {
             argv.push(format!("{},id={i},mode = m {i} ,flag", path.display()));
             gen_args.push(args);
             // pre-existing files of generators that produce files
-            if (outdir == "identical" || outdir == "different") && matches!(beh.as_str(), "ok1" | "ok2" | "okinfo" | "okwarn") {
+            if matches!(outdir, "identical" | "different" | "longer" | "shorter") && matches!(beh.as_str(), "ok1" | "ok2" | "okinfo" | "okwarn" | "oksource") {
                 let p = target.join(crate::fam_driver::gen_file_name(i, 1));
-                let content = if outdir == "identical" { gen_file_contents(i, 1) } else { "something else entirely\n".to_owned() };
+                let new = gen_file_contents(i, 1);
+                let content = match outdir {
+                    "identical" => new,
+                    "longer" => format!("{new}left over from an earlier run\n"),
+                    "shorter" => new.chars().take(new.chars().count() / 2).collect(),
+                    _ => "something else entirely\n".to_owned(),
+                };
                 std::fs::write(&p, content).unwrap();
                 let f = std::fs::File::options().write(true).open(&p).unwrap();
                 let _ = f.set_modified(SystemTime::UNIX_EPOCH + Duration::from_secs(1_000_000_000));
@@ -301,7 +307,7 @@ impl Family for Driver {
         for (idx, beh) in gens.iter().enumerate() {
             let i = idx as u64 + 1;
             let want = match beh.as_str() {
-                "ok1" | "okinfo" | "okwarn" => 1,
+                "ok1" | "okinfo" | "okwarn" | "oksource" => 1,
                 "ok2" => 2,
                 _ => 0,
             };
